@@ -4,6 +4,7 @@ package main
 
 import (
 	"go/ast"
+	"go/constant"
 	"bufio"
 	"fmt"
 	"go/token"
@@ -38,6 +39,7 @@ type Engine struct {
 	// frozen package globals: component name -> addresses, and the globals themselves
 	frozenAddrs map[string][]Term
 	frozenGlobs map[*ssa.Global]bool
+	constErrGlobs map[*ssa.Global]string
 	frozenTags  []string // properties under which the directive applies (empty: all)
 }
 
@@ -162,7 +164,82 @@ func loadEngine(repo string) (*Engine, error) {
 			}
 		}
 	}
+	e.findConstErrGlobals(prog)
 	return e, nil
+}
+
+// findConstErrGlobals: package-level variables `var ErrX = errors.New("literal")` that no function
+// of the module assigns or takes the address of are constants: a load gives an error with that text
+// (assumption A-ERRVAR: code outside the module does not assign them either).
+func (e *Engine) findConstErrGlobals(prog *ssa.Program) {
+	e.constErrGlobs = map[*ssa.Global]string{}
+	cand := map[*ssa.Global]string{}
+	bad := map[*ssa.Global]bool{}
+	var walk func(f *ssa.Function, isInit bool)
+	walk = func(f *ssa.Function, isInit bool) {
+		for _, b := range f.Blocks {
+			for _, in := range b.Instrs {
+				for _, op := range in.Operands(nil) {
+					g, ok := (*op).(*ssa.Global)
+					if !ok {
+						continue
+					}
+					switch x := in.(type) {
+					case *ssa.UnOp:
+						if x.Op == token.MUL {
+							continue
+						}
+					case *ssa.DebugRef:
+						continue
+					case *ssa.Store:
+						if x.Addr == ssa.Value(g) && x.Val != ssa.Value(g) && isInit {
+							if c, ok := x.Val.(*ssa.Call); ok {
+								if callee := c.Call.StaticCallee(); callee != nil && callee.String() == "errors.New" && len(c.Call.Args) == 1 {
+									if k, ok := c.Call.Args[0].(*ssa.Const); ok && k.Value != nil && k.Value.Kind() == constant.String {
+										if _, dup := cand[g]; !dup {
+											cand[g] = constant.StringVal(k.Value)
+											continue
+										}
+									}
+								}
+							}
+						}
+					}
+					bad[g] = true
+				}
+			}
+		}
+		for _, af := range f.AnonFuncs {
+			walk(af, false)
+		}
+	}
+	for _, p := range prog.AllPackages() {
+		if !strings.HasPrefix(p.Pkg.Path(), modulePath) {
+			continue
+		}
+		for name, m := range p.Members {
+			if f, ok := m.(*ssa.Function); ok {
+				walk(f, name == "init")
+			}
+		}
+		for _, t := range p.Members {
+			if tn, ok := t.(*ssa.Type); ok {
+				for _, recv := range []types.Type{tn.Type(), types.NewPointer(tn.Type())} {
+					ms := prog.MethodSets.MethodSet(recv)
+					for i := 0; i < ms.Len(); i++ {
+						if f := prog.MethodValue(ms.At(i)); f != nil && f.Pkg == p {
+							walk(f, false)
+						}
+					}
+				}
+			}
+		}
+	}
+	for g, msg := range cand {
+		if !bad[g] {
+			e.constErrGlobs[g] = msg
+		}
+	}
 }
 
 func (e *Engine) pkgOf(fn *ssa.Function) *packages.Package {
